@@ -32,7 +32,8 @@ THEOREMS = {
 }
 RULE = ("merge cases: a random dataset (2..9 values; small integers, or gaussians) and EVERY split into two consecutive parts "
         "(incl. an empty left part) and every chunking into T equal chunks; statistics cases: (num_samples, num_chains, burn_in, "
-        "steps, user chains or not, overwrite, set of observables, single/System) with num_samples <= 9, num_chains <= 10 (all pairs in "
+        "steps, user chains or not [dtype float64/32/16, int64, uint8, bool; contiguous, strided row/column views of a larger buffer, "
+        "transposed, stride-0 expand], overwrite, set of observables, single/System) with num_samples <= 9, num_chains <= 10 (all pairs in "
         "thorough, a seeded subset plus the special pairs in quick), burn_in/steps in 0..3, real Gibbs sampling on a small random "
         "state with nn_state.sample wrapped on the instance. non-trivial iff at least two draws are merged and the captured "
         "values are not all equal; distinct by hash of the case")
@@ -54,6 +55,36 @@ def stat_close(a, b, scale, rtol=1e-9):
     if math.isnan(a) or math.isnan(b):
         return math.isnan(a) and math.isnan(b)
     return abs(a - b) <= rtol * max(scale, abs(a), abs(b))
+
+
+def var_tol(V, scale):
+    """admissible error of a variance V of data of magnitude `scale` computed by a numerically stable method (two-pass chunks +
+    delta-based merges): relative 1e-9, plus the rounding of the chunk means entering the merge term (~ eps*scale*sqrt(V)).
+    Deliberately NOT relative to scale^2: cancellation between sums of squares is an error of the result."""
+    V = abs(float(V))
+    return 1e-9 * V + 1e-11 * scale * math.sqrt(V) + 1e-20 * scale * scale
+
+
+def var_close(a, V, scale):
+    a = float(a)
+    if V is None:
+        return math.isnan(a)
+    return (not math.isnan(a)) and abs(a - float(V)) <= var_tol(V, scale)
+
+
+def se_close(a, V, N, scale):
+    a = float(a)
+    if V is None:
+        return math.isnan(a)
+    V = max(float(V), 0.0)
+    se = math.sqrt(V / N)
+    tol = (var_tol(V, scale) / (2 * math.sqrt(V * N)) + 1e-9 * se) if V > 0 else math.sqrt(var_tol(0.0, scale) / N)
+    return (not math.isnan(a)) and abs(a - se) <= max(tol, 1e-300)
+
+
+def var_scale(V, scale):
+    """`scale` argument for ctx.point on a variance: atol 1e-9 * scale * sqrt(V) (see var_tol)"""
+    return max(1e-6, scale * math.sqrt(abs(float(V)))) if V is not None else 1.0
 
 
 class MockObs(ObservableBase):
@@ -93,7 +124,7 @@ def merge_case(ctx, case):
         mb, vb = chunk_stats(b)
         r = _update_statistics(ma, va, len(a), mb, vb, len(b))
         ok = (r[2] == N and stat_close(r[0], M, scale) and
-              (stat_close(r[1], V, scale * scale) if V is not None else math.isnan(r[1])))
+              var_close(r[1], V, scale))
         ctx.oracle("merge == one-pass statistics of the concatenation", ok, sub,
                    detail={"impl": [float(r[0]), float(r[1]), r[2]], "expected": [float(M), None if V is None else float(V), N]},
                    sig="merge/oracle", theorem=THEOREMS["merge"])
@@ -108,7 +139,7 @@ def merge_case(ctx, case):
         if ctx.driver is not None:
             m = ctx.driver.call("c13.update", avg_a=f2b(ma), var_a=f2b(va), len_a=len(a), avg_b=f2b(mb), var_b=f2b(vb), len_b=len(b))
             ctx.point("merge.mean", "property", [r[0]], unbits([m["mean"]]), sub, scale=scale, theorem=THEOREMS["merge"], sig="merge/mean")
-            ctx.point("merge.variance", "property", [r[1]], unbits([m["variance"]]), sub, scale=scale * scale, theorem=THEOREMS["merge"],
+            ctx.point("merge.variance", "property", [r[1]], unbits([m["variance"]]), sub, scale=var_scale(V, scale), theorem=THEOREMS["merge"],
                       sig="merge/variance")
             ctx.point("merge.len", "property", r[2], m["n"], sub, exact=True, theorem=THEOREMS["merge"], sig="merge/len")
     # every chunking into T equal chunks, folded with the real routine the way `statistics` folds it
@@ -121,7 +152,7 @@ def merge_case(ctx, case):
             mb, vb = chunk_stats(ch)
             rm, rv, rl = _update_statistics(rm, rv, rl, mb, vb, c)
         sub = {**case, "chunk": c}
-        ok = (rl == N and stat_close(rm, M, scale) and (stat_close(rv, V, scale * scale) if V is not None else math.isnan(rv)))
+        ok = (rl == N and stat_close(rm, M, scale) and var_close(rv, V, scale))
         ctx.oracle("fold over equal chunks == one-pass", ok, sub, detail={"impl": [float(rm), float(rv), rl]}, sig="fold/oracle",
                    theorem=THEOREMS["stream"])
         ctx.count(f"fold_c={c}")
@@ -133,7 +164,7 @@ def merge_case(ctx, case):
                     ctx.point(f"fold.{key}", lvl, "ok", mm["error"], sub, exact=True, sig=f"fold/{key}")
                     continue
                 ctx.point(f"fold.{key}.mean", lvl, [rm], unbits([mm["mean"]]), sub, scale=scale, theorem=THEOREMS["stream"], sig=f"fold/{key}")
-                ctx.point(f"fold.{key}.variance", lvl, [rv], unbits([mm["variance"]]), sub, scale=scale * scale, theorem=THEOREMS["stream"],
+                ctx.point(f"fold.{key}.variance", lvl, [rv], unbits([mm["variance"]]), sub, scale=var_scale(V, scale), theorem=THEOREMS["stream"],
                           sig=f"fold/{key}")
                 ctx.point(f"fold.{key}.n", lvl, rl, mm["n"], sub, exact=True, theorem=THEOREMS["stream"], sig=f"fold/{key}")
 
@@ -228,29 +259,84 @@ def record_run(st, user, fn):
     return r, err, rec.calls
 
 
+INIT_FORMS = ("f64", "f32", "f16", "i64", "u8", "bool", "cols", "rows", "T", "f32cols", "expand")
+IN_PLACE_FORMS = ("f64", "cols", "rows", "T")   # float64 tensors: `.to(weights)` is the identity, Gibbs steps write into the caller's tensor
+
+
+def make_user(rows, n, form):
+    """the caller's initial_state in the given dtype / memory layout -> (tensor, backing buffer or None).
+    f64 / f32 / f16 / i64 / u8 / bool: contiguous tensors of that dtype; cols / rows: strided views of a larger float64 buffer;
+    T: transposed (column-major) float64; f32cols: strided float32 view; expand: one row broadcast with stride 0 (read-only use)"""
+    base = torch.tensor(rows, dtype=torch.double).reshape(len(rows), n)
+    R = len(rows)
+    if form == "f64":
+        return base, None
+    if form in ("f32", "f16", "i64", "u8", "bool"):
+        return base.to({"f32": torch.float32, "f16": torch.float16, "i64": torch.int64, "u8": torch.uint8, "bool": torch.bool}[form]), None
+    if form in ("cols", "f32cols"):
+        big = torch.full((R, 2 * n + 1), 7.0, dtype=torch.double if form == "cols" else torch.float32)
+        big[:, 1::2] = base.to(big.dtype)
+        return big[:, 1::2], big
+    if form == "rows":
+        big = torch.full((2 * R + 1, n), 7.0, dtype=torch.double)
+        big[1::2] = base
+        return big[1::2], big
+    if form == "T":
+        return base.t().contiguous().t(), None
+    if form == "expand":
+        return base[0:1].expand(R, n), None
+    raise ValueError(form)
+
+
 def stats_case(ctx, case):
     n = case["state"]["n"]
     st = make_state(case["state"])
     names = [f"O{i}" for i in range(len(case["obs"]))]
     obs = [make_obs(s, n, nm) for s, nm in zip(case["obs"], names)]
     user_before = None
+    form = case.get("init_form", "f64")
     if case["init"] is not None:
-        user_before = torch.tensor(case["init"], dtype=torch.double).reshape(len(case["init"]), n)
+        rows_ = [case["init"][0]] * len(case["init"]) if form == "expand" and case["init"] else case["init"]
+        user_before = make_user(rows_, n, form)[0].clone()
+        ctx.count(f"init_form={form}")
+
+    def new_user():
+        """a fresh copy of the caller's tensor in the case's dtype / layout (+ its backing buffer)"""
+        if user_before is None:
+            return None, None
+        return make_user(rows_, n, form)
     ns, nc, burn, steps, ow, system = case["ns"], case["nc"], case["burn_in"], case["steps"], case["overwrite"], case["system"]
     kwargs = dict(num_samples=ns, num_chains=nc, burn_in=burn, steps=steps, overwrite=ow)
+    sysobj = System(*obs) if system else None
+    if case.get("before"):
+        # an EARLIER run with another configuration on the very same observable / System / state objects (results discarded here:
+        # every configuration is checked as a case of its own); the checked run below must not depend on it
+        b = case["before"]
+        ctx.count("second_run_on_same_objects")
+        torch.manual_seed(b["torch_seed"])
+        ub = None if b["rows"] is None else torch.tensor(b["rows"], dtype=torch.double).reshape(len(b["rows"]), n)
+        kb = dict(num_samples=b["ns"], num_chains=b["nc"], burn_in=b["burn_in"], steps=b["steps"], initial_state=ub, overwrite=b["overwrite"])
+        try:
+            if system:
+                sysobj.statistics(st, **kb)
+            else:
+                for o in obs:
+                    o.statistics(st, **kb)
+        except ZeroDivisionError:
+            pass
     runs = []  # (result dicts per observable, error, calls, observables covered, the caller's tensor after the run)
     if system:
         torch.manual_seed(case["torch_seed"])
-        user = None if user_before is None else user_before.clone()
-        r, err, calls = record_run(st, user, lambda u: System(*obs).statistics(st, initial_state=u, **kwargs))
-        runs.append((None if r is None else [r[nm] for nm in names], err, calls, list(range(len(obs))), user))
+        user, backing = new_user()
+        r, err, calls = record_run(st, user, lambda u: sysobj.statistics(st, initial_state=u, **kwargs))
+        runs.append((None if r is None else [r[nm] for nm in names], err, calls, list(range(len(obs))), user, backing))
     else:
         # one observable at a time; every run is recorded and checked on its own chain states
         for i, o in enumerate(obs):
             torch.manual_seed(case["torch_seed"] + i)
-            user = None if user_before is None else user_before.clone()
+            user, backing = new_user()
             r, err, calls = record_run(st, user, lambda u: o.statistics(st, initial_state=u, **kwargs))
-            runs.append((None if r is None else [r], err, calls, [i], user))
+            runs.append((None if r is None else [r], err, calls, [i], user, backing))
 
     c_exp = (len(case["init"]) if case["init"] is not None else (min(nc, ns) if nc != 0 else ns))
     T_exp = None if c_exp == 0 else -(-ns // c_exp)
@@ -271,7 +357,7 @@ def stats_case(ctx, case):
     if c_exp == 1 or ns == 1:
         ctx.count("single_value_chunks_or_single_sample")
 
-    for (r, err, calls, idxs, user) in runs:
+    for (r, err, calls, idxs, user, backing) in runs:
         exp_err = "ZeroDivisionError" if (c_exp == 0 or (T_exp == 0 and len(idxs) > 0)) else None
         ctx.oracle("error exactly when no chain / no draw", err == exp_err, case, detail={"impl": err, "expected": exp_err},
                    sig=f"{sig0}/error-oracle", theorem=THEOREMS["count"])
@@ -294,11 +380,16 @@ def stats_case(ctx, case):
                        detail={"inits": [cl["init"] for cl in calls], "rets": [cl["ret"] for cl in calls]},
                        sig=f"{sig0}/continuity", theorem=THEOREMS["schedule"])
             if user is not None:
-                if ow:
+                if backing is not None:
+                    other = torch.ones_like(backing, dtype=torch.bool)
+                    (other[:, 1::2] if form in ("cols", "f32cols") else other[1::2]).fill_(False)
+                    ctx.oracle("elements of the caller's buffer outside the initial_state view are untouched",
+                               bool((backing[other] == 7.0).all()), case, sig=f"{sig0}/outside-view", theorem=THEOREMS["schedule"])
+                if ow and form in IN_PLACE_FORMS:
                     ctx.oracle("overwrite=True: the caller's tensor holds the final chain state",
                                bool(torch.equal(user, calls[-1]["ret_copy"])), case, sig=f"{sig0}/overwrite-final",
                                theorem=THEOREMS["schedule"])
-                else:
+                elif not ow:
                     ctx.oracle("overwrite=False: the caller's initial_state is untouched", bool(torch.equal(user, user_before)), case,
                                sig=f"{sig0}/untouched", theorem=THEOREMS["schedule"])
                 first_ok = (calls[0]["init"] == 0) if ow else (calls[0]["init"] != 0 and all(cl["init"] != 0 for cl in calls))
@@ -314,9 +405,7 @@ def stats_case(ctx, case):
                 sc = max(1.0, max(abs(x) for x in allv))
                 d = r[j]
                 ok = (d["num_samples"] == N == T * c_exp and N >= ns and stat_close(d["mean"], M, sc, 1e-9)
-                      and (stat_close(d["variance"], V, sc * sc, 1e-9) if V is not None else math.isnan(d["variance"]))
-                      and (stat_close(d["std_error"], math.sqrt(max(float(V), 0.0) / N), sc, 1e-7) if V is not None
-                           else math.isnan(float(d["std_error"]))))
+                      and var_close(d["variance"], V, sc) and se_close(d["std_error"], V, N, sc))
                 ctx.oracle("result == one-pass statistics of every drawn sample", bool(ok), case,
                            detail={"impl": {k: float(x) for k, x in d.items()}, "expected": [float(M), None if V is None else float(V), N],
                                    "obs": oi}, sig=f"{sig0}/one-pass", theorem=THEOREMS["system"] if system else THEOREMS["stream"])
@@ -347,7 +436,8 @@ def stats_case(ctx, case):
                             continue
                         th = THEOREMS["system"] if system else THEOREMS["stream"]
                         ctx.point(f"{key}.mean", lvl, [d["mean"]], unbits([mm["mean"]]), case, scale=sc, theorem=th, sig=f"{sig0}/{key}")
-                        ctx.point(f"{key}.variance", lvl, [d["variance"]], unbits([mm["variance"]]), case, scale=sc * sc, theorem=th,
+                        ctx.point(f"{key}.variance", lvl, [d["variance"]], unbits([mm["variance"]]), case,
+                                  scale=var_scale(exact_stats(allv)[1], sc), theorem=th,
                                   sig=f"{sig0}/{key}")
                         ctx.point(f"{key}.std_error", lvl, [float(d["std_error"])], unbits([mm["std_error"]]), case, scale=sc, rtol=1e-5,
                                   atol=1e-7, theorem=th, sig=f"{sig0}/{key}")
@@ -360,7 +450,8 @@ def stats_case(ctx, case):
 # ---------------------------------------------------------------- generation
 def gen_obs_specs(rng, n):
     def mock():
-        return {"type": "mock", "w": [rng.randrange(-3, 4) for _ in range(n)], "off": rng.randrange(-2, 3)}
+        return {"type": "mock", "w": [rng.randrange(-3, 4) for _ in range(n)],
+                "off": rng.randrange(-2, 3) if rng.random() < 0.85 else rng.choice([1e8, -3e7, 1e9])}
     pool = [mock, mock, lambda: {"type": "SigmaZ"}, lambda: {"type": "SigmaX"},
             lambda: {"type": "NI", "periodic": rng.random() < 0.5},
             lambda: {**mock(), "type": "composite"}, lambda: {**mock(), "type": "composite2"}]
@@ -377,13 +468,16 @@ def gen_state(rng):
     return s
 
 
-def gen_stats_case(rng, ns, nc, system, user_rows=None, overwrite=False):
+def gen_stats_case(rng, ns, nc, system, user_rows=None, overwrite=False, init_form=None):
     st = gen_state(rng)
     n = st["n"]
-    return {"part": "statistics", "state": st, "obs": gen_obs_specs(rng, n), "ns": ns, "nc": nc,
+    case = {"part": "statistics", "state": st, "obs": gen_obs_specs(rng, n), "ns": ns, "nc": nc,
             "burn_in": rng.randrange(0, 4), "steps": rng.randrange(0, 4),
             "init": None if user_rows is None else [[rng.randrange(2) for _ in range(n)] for _ in range(user_rows)],
             "overwrite": overwrite, "system": system, "torch_seed": rng.randrange(1 << 30)}
+    if init_form is not None:
+        case["init_form"] = init_form
+    return case
 
 
 SPECIAL_PAIRS = [(1, 0), (1, 1), (1, 5), (2, 1), (5, 1), (7, 3), (9, 4), (6, 0), (4, 10), (6, 3), (9, 9), (8, 5), (3, 2)]
@@ -398,6 +492,11 @@ def gen_cases(ctx, thorough):
         yield {"part": "merge", "xs": [rng.gauss(0, 3) for _ in range(N)]}
     yield {"part": "merge", "xs": [2.0, 2.0, 2.0, 2.0]}
     yield {"part": "merge", "xs": [1e6 + 1, 1e6 + 2, 1e6 + 4, 1e6 - 3, 1e6, 1e6 + 9]}
+    # |mean| >> spread: the variance must come out to relative accuracy, not to accuracy relative to mean^2
+    for off in (1e8, -3e7, 1e9, 2.0 ** 40):
+        N = rng.randrange(3, 10)
+        yield {"part": "merge", "xs": [off + float(rng.randrange(-6, 7)) for _ in range(N)]}
+        yield {"part": "merge", "xs": [off + round(rng.gauss(0, 2), 2) for _ in range(N)]}
     yield {"part": "formula", "args": [0, 0, 0, 0, 0, 0]}
     yield {"part": "formula", "args": [3, None, 0, 4, None, 1]}
     for _ in range(300 if thorough else 40):
@@ -413,8 +512,32 @@ def gen_cases(ctx, thorough):
         for system in ((False, True) if thorough else (rng.random() < 0.5,)):
             yield gen_stats_case(rng, ns, nc, system)
     for _ in range(80 if thorough else 16):
+        ow = rng.random() < 0.5
         yield gen_stats_case(rng, rng.randrange(1, 10), rng.randrange(0, 11), rng.random() < 0.5, user_rows=rng.randrange(1, 5),
-                             overwrite=rng.random() < 0.5)
+                             overwrite=ow, init_form=rng.choice([f for f in INIT_FORMS if not (ow and f == "expand")]))
+    # the caller's chains in every dtype / memory layout x overwrite on/off, at least two draws (usually more, also non-divisible counts):
+    # the continuity observation (each sample() call starts from the tensor and content the previous call returned) and the
+    # one-pass statistics must hold whether or not Gibbs sampling can work in place on the caller's tensor
+    for rep in range(3 if thorough else 1):
+        for form in INIT_FORMS:
+            for ow in (False, True):
+                if form == "expand" and ow:
+                    continue  # writing through a stride-0 view is refused by torch
+                rows = rng.randrange(1, 4)
+                T = rng.randrange(2, 5)
+                ns = rows * T - (rng.randrange(0, rows) if rng.random() < 0.4 else 0)
+                yield gen_stats_case(rng, ns, rng.randrange(0, 5), rng.random() < 0.4, user_rows=rows, overwrite=ow, init_form=form)
+    # two consecutive runs on the same observable / System / state objects with different configurations
+    for _ in range(60 if thorough else 12):
+        ns, nc = rng.choice(SPECIAL_PAIRS + [(rng.randrange(1, 10), rng.randrange(0, 11))])
+        ur = rng.choice([None, None, rng.randrange(1, 4)])
+        c = gen_stats_case(rng, ns, nc, rng.random() < 0.5, user_rows=ur, overwrite=rng.random() < 0.5)
+        n_ = c["state"]["n"]
+        br = rng.choice([None, rng.randrange(1, 5)])
+        c["before"] = {"ns": rng.randrange(1, 10), "nc": rng.randrange(0, 6), "burn_in": rng.randrange(0, 4), "steps": rng.randrange(0, 4),
+                       "rows": None if br is None else [[rng.randrange(2) for _ in range(n_)] for _ in range(br)],
+                       "overwrite": rng.random() < 0.5, "torch_seed": rng.randrange(1 << 30)}
+        yield c
     # malformed stream: nothing requested / no chains
     yield gen_stats_case(rng, 0, 0, False)
     yield gen_stats_case(rng, 0, 3, True)
